@@ -164,6 +164,8 @@ type udRun struct {
 	mu    sync.Mutex
 	stats map[string]int
 	socks map[string]int // backend-side source address -> small id
+	last  map[string]*net.UDPAddr // user name -> source address of its latest datagram at the backend (the client-side socket)
+	bconn map[int]*net.UDPConn    // backend id -> its socket
 }
 
 func (r *udRun) stat(k string, n int) { r.mu.Lock(); r.stats[k] += n; r.mu.Unlock() }
@@ -208,6 +210,14 @@ func (r *udRun) backend(id int, conn *net.UDPConn, packet int) {
 		if !in.ok {
 			continue
 		}
+		r.mu.Lock()
+		if r.last == nil {
+			r.last = map[string]*net.UDPAddr{}
+			r.bconn = map[int]*net.UDPConn{}
+		}
+		r.last[uname(in.proxy, in.user)] = src
+		r.bconn[id] = conn
+		r.mu.Unlock()
 		// the reply answers <<proxy, user, k>> with a length of its own
 		rl := udHdr + int((uint32(in.user)*2654435761+in.k*40503)%uint32(packet-udHdr+1))
 		rep := udMake('R', in.proxy, in.user, in.k, rl)
@@ -465,7 +475,27 @@ func (r *udRun) one(n int, cfg udCfg, users, pings, burst int, expire bool) {
 	if expire {
 		// the client closes a user's local socket after 30 s without a reply; the next datagram gets a new one
 		r.sink.Emit("drv", "ud.phase", "name", "idle-31s", "light", false)
-		time.Sleep(31 * time.Second)
+		// one user stays quiet while its backend keeps answering on the socket the user's last datagram came from (a
+		// subscription): the socket is idle only when nothing has been read from the backend for 30 s, so these replies
+		// keep it open and every one of them arrives, the ones later than 30 s after the user's last datagram included
+		qu := uname(us[0].proxy, us[0].id)
+		r.mu.Lock()
+		qsrc, qconn := r.last[qu], r.bconn[us[0].proxy]
+		r.mu.Unlock()
+		t0 := time.Now()
+		for i, at := range []int{7, 14, 21, 27, 32, 36} {
+			time.Sleep(time.Until(t0.Add(time.Duration(at) * time.Second)))
+			if qsrc == nil || qconn == nil {
+				break
+			}
+			k := uint32(900000 + i)
+			rep := udMake('R', us[0].proxy, us[0].id, k, udHdr+40)
+			r.sink.Emit("drv", "ud.breply", "backend", us[0].proxy, "sock", r.sockID(us[0].proxy, qsrc.String()), "u", qu, "k", int(k), "len", len(rep))
+			_, _ = qconn.WriteToUDP(rep, qsrc)
+			r.stat("push", 1)
+		}
+		time.Sleep(1200 * time.Millisecond)
+		r.sink.Emit("drv", "ud.quiesce", "name", "push")
 		light("light-after-expiry", pings/2+1)
 		r.stat("expiry", 1)
 	}
